@@ -3,6 +3,7 @@ module verifharness
 go 1.25.0
 
 require (
+	github.com/danielgtaylor/huma/v2 v2.37.3
 	github.com/els0r/goProbe/plugins/contrib/v4 v4.0.0-20250311082229-45a8753b72a7
 	github.com/els0r/goProbe/v4 v4.0.0
 	github.com/els0r/telemetry/logging v0.0.0-20260406010724-0c813ed6284d
@@ -14,7 +15,6 @@ require (
 	github.com/beorn7/perks v1.0.1 // indirect
 	github.com/cenkalti/backoff/v5 v5.0.3 // indirect
 	github.com/cespare/xxhash/v2 v2.3.0 // indirect
-	github.com/danielgtaylor/huma/v2 v2.37.3 // indirect
 	github.com/els0r/telemetry/tracing v0.0.0-20260406010724-0c813ed6284d // indirect
 	github.com/fako1024/gotools/concurrency v0.0.0-20260108133916-d42cb4e89f05 // indirect
 	github.com/fako1024/gotools/link v0.0.0-20260511092824-089d64760c34 // indirect
